@@ -13,6 +13,8 @@ it.  Besides the small base log (keys a,b,c, short values, indexes 1,2,3,...) th
   record counts   number of records of the recovered snapshot (user keys + the applied-index record) around 32 .. 4096
   index magnitude raft indexes with gaps (not every raft index reaches the state machine) crossing 2^7, 2^8, 2^14, 2^16,
                   2^32, 2^63, ... up to 2^64-1, reached by updates and by a snapshot's index
+  bytes per call  ONE Update call of 1 .. 24 MB in total made of 2-5 large values and small ones around them (a limit on
+                  the size of a batch / WAL record would be crossed in the middle of the call)
   crash after ack every workload has crash points between two calls and after its last call (an acknowledged call
                   followed by no further durable write)
 
@@ -254,7 +256,7 @@ def bytes_workloads(rng, totals):
                 call.append((keys[(2 * j + 1) % 5], None))
         ents += [(k, sz, None) for (k, sz) in call]
         calls = "O,U1,U%d,U1,C,O,U1" % len(call)
-        out.append(("bytes-%dk" % (t // 1024), calls, mk_log(ents, consumed(calls))))
+        out.append(("bytes-%d-%dk" % (len(out) + 1, t // 1024), calls, mk_log(ents, consumed(calls))))
     return out
 
 
@@ -556,7 +558,10 @@ def run(ck):
         "+ record-count workloads (snapshot of T records incl. the applied-index record, T in %s, recovered after updates "
         "and on an empty store with no call afterwards); "
         "+ index workloads (raft indexes with gaps crossing B in %s: by updates B-2,B-1,B,close,reopen,B+1, by calls whose "
-        "entries have the gap between them, and by snapshot indexes B, B+2); + %d PRNG sequences over PRNG logs mixing 3-8 keys, large values and index gaps. "
+        "entries have the gap between them, and by snapshot indexes B, B+2); + %d PRNG sequences over PRNG logs mixing 3-8 keys, large values and index gaps; "
+        "+ total-bytes workloads (ONE Update call of %s bytes made of 2-5 large values with small ones before, between and after "
+        "them, keys rewritten within the call; crash points: every %s index, the index of and after every file sync / directory "
+        "sync / rename also inside the store directory, first/last operation of every call). "
         "Single crashes: EVERY mutating FS-operation index 0..N of every workload (N = crash after the last operation, i.e. "
         "after the last call was acknowledged)%s. Double crashes: phase 1 = workload crashed at k1, "
         "phase 2 = '%s' on a new process crashed at k2, then reopen; quick: all (k1,k2) of 'first-open' and every 7th "
@@ -564,6 +569,7 @@ def run(ck):
         "31st pair of the size / count (< 300 records) / index (below 2^64-100) / mixed workloads. "
         "A case is non-trivial if the crash hits a call in progress; distinct by workload and crash indexes."
         % (NRAND, LOGLEN, 1 if quick else 3, sizes, counts, bounds, NRICH,
+           "5-8 MB and 1/2/4 MB + a little" if quick else "1, 2, 4, 8, 16 MB -/+ a little, 5-8, 9-15 and 24 MB", "4th" if quick else "2nd",
            "; quick tier: in the size / count / index / mixed workloads the indexes inside the first Open are left out (they do not "
            "depend on the log), and for record counts >= 1000 the points are the first/last operation of every call, after the "
            "last call, and every 3rd index" if quick else "", PHASE2))
@@ -591,6 +597,14 @@ def run(ck):
     for i in range(NRICH):
         w = random_workload(rng)
         new_dims.append(("rich-%d" % (i + 1), w, rich_log(rng, consumed(w)), M))
+    # total bytes of ONE call: sampled crash points (every 4th / 2nd index, every sync and rename boundary, call boundaries)
+    if quick:
+        totals = [rng.randrange(5 * MB, 8 * MB), rng.choice([1, 2, 4]) * MB + rng.randrange(1, 65536)]
+    else:
+        totals = [x * MB + d for x in (1, 2, 4, 8, 16) for d in (-rng.randrange(1, 65536), rng.randrange(1, 65536))] + \
+                 [rng.randrange(5 * MB, 8 * MB), rng.randrange(9 * MB, 15 * MB), 24 * MB + 7]
+    for wid, calls, lg in bytes_workloads(rng, totals):
+        new_dims.append((wid, calls, lg, "T%d:%d" % ((4, rng.randrange(4)) if quick else (2, rng.randrange(2)))))
     workloads += new_dims
     wl = {wid: w for wid, w, _, _ in workloads}
     wlog = {wid: lg for wid, _, lg, _ in workloads}
@@ -624,7 +638,7 @@ def run(ck):
     else:
         dbl = [(wid, 1) for wid, _ in FIXED] + [(wid, 2) for wid, _, _, _ in workloads[len(FIXED):len(FIXED) + NRAND]]
         # phase 2 consumes 3 more log entries: not for logs that end at 2^64-1, not for the very large snapshots
-        dbl += [(wid, 31) for wid, _, lg, mode in new_dims if lg.n < 300 and lg.ents[-1][2] < 2 ** 64 - 100]
+        dbl += [(wid, 31) for wid, _, lg, mode in new_dims if mode[0] != "T" and lg.n < 300 and lg.ents[-1][2] < 2 ** 64 - 100]
     for wid, stride in dbl:
         lines.append("%s D%d %s %s %s" % (wid, stride, wlog[wid].spec, wl[wid], PHASE2))
     import time as _t
@@ -726,7 +740,8 @@ def run(ck):
     ck.cov["crash_points_single"] = sum(s["single_crash_points"] for s in stats.values())
     ck.cov["crash_points_double"] = sum(s["double_crash_points"] for s in stats.values())
     ck.cov["dimensions"] = {"value_sizes_bytes": sizes, "snapshot_record_counts": counts, "index_boundaries": [str(b) for b in bounds],
-                            "largest_index": str(max(lg.ents[-1][2] for lg in wlog.values()))}
+                            "largest_index": str(max(lg.ents[-1][2] for lg in wlog.values())),
+                            "total_bytes_of_one_update_call": [] if ck.replay else totals}
     tot = {}
     for s in stats.values():
         for k, v in s["outcome"].items():
